@@ -1,5 +1,6 @@
 import M3d.Lemmas.RenderSampling
 import M3d.Lemmas.RenderAnalytic
+import M3d.Lemmas.LightTree
 import M3d.Gen.ReflectAmount
 /-!
 # C19 — materials and lights sample what their densities say
@@ -397,6 +398,89 @@ theorem join_lights_selection_proportional (ws : List K) (hnn : ∀ w ∈ ws, 0 
 example : selectIdx [(0 : ℚ), 0, 3, 0, 1] (1 / 2) = 2 ∧ selectIdx [(0 : ℚ), 0, 3, 0, 1] (7 / 8) = 4 ∧
     selectIdx [(0 : ℚ), 0, 3, 0, 1] (3 / 4) = 2 := by
   refine ⟨?_, ?_, ?_⟩ <;> decide +kernel
+
+/-! ### Nested `JoinAreaLights` (a joined light passed to `JoinAreaLights` again)
+
+`LTree` (`M3d/Model/LightTree.lean`) is the tree of `*joinedAreaLight`s over primitive lights;
+`LTree.select` is `SampleLight`'s descent (one `gen.Float64()` per level, each level the cumulative
+table + binary search of `selectIdx`), `LTree.total` is `TotalEmission()`. -/
+
+/-- **`TotalEmission` of a nested join is the sum of the primitive lights' `TotalEmission`s**
+(each of which is emission × area, `total_emission_eq_emission_times_area`), however the lights are
+grouped: no light is counted twice and none is lost. -/
+theorem nested_join_total_emission (t : LTree K) : t.total = t.leaves.sum :=
+  LTree.total_eq_leaves_sum t
+
+/-- **A nested join samples every primitive light in proportion to its own `TotalEmission`.**
+For non-negative lights with positive total and draws `us ∈ (0,1]` (one per level): `SampleLight`
+reaches a primitive light `idx` of positive weight `w`; the draws lie in a cell (a product of
+half-open intervals, one per level used) on which *every* vector of draws reaches the same light;
+and the volume of that cell — the probability of that path for independent uniform draws — is
+`w / TotalEmission`: the conditional probabilities `Wᵢ/W` of the levels telescope.  Since the
+weights sum to `TotalEmission` (`nested_join_total_emission`), the cells of a light account for
+exactly its share.  Combined with `join_lights_selection_proportional` (density per area `e/T`
+inside a light) this is "uniformly by emitted power" for any nesting. -/
+theorem nested_join_selection_proportional (t : LTree K) (us : List K) (hnn : ∀ w ∈ t.leaves, 0 ≤ w)
+    (hpos : 0 < t.total) (hus : ∀ u ∈ us, 0 < u ∧ u ≤ 1) (hd : t.depth ≤ us.length) :
+    ∃ idx w, t.select us = some idx ∧ t.leaves[idx]? = some w ∧ 0 < w ∧
+      cellVol (t.cell us) = w / t.leaves.sum ∧ InCell us (t.cell us) ∧
+      ∀ us', InCell us' (t.cell us) → t.select us' = some idx := by
+  have h := LTree.select_spec t us hnn hpos hus hd
+  rw [nested_join_total_emission] at h
+  exact h
+
+/-- Non-vacuity / a worked case over ℚ: lights of power 1 and 3 joined, then joined with a light of
+power 4.  The draws (1/4, 1/2) reach the second light (index 1) — cell (0,1/2] × (1/4,1] of volume
+3/8 = 3/(1+3+4) — and (3/4, ·) the third. -/
+example :
+    let t : LTree ℚ := .join [.join [.leaf 1, .leaf 3], .leaf 4]
+    t.total = 8 ∧ t.leaves = [1, 3, 4] ∧ t.depth = 2 ∧ t.select [1/4, 1/2] = some 1 ∧
+    t.cell [1/4, 1/2] = [(0, 1/2), (1/4, 1)] ∧ cellVol (t.cell [1/4, 1/2]) = 3 / 8 ∧
+    t.select [3/4, 1/2] = some 2 ∧ t.select [1/4, 1/8] = some 0 := by
+  refine ⟨?_, ?_, ?_, ?_, ?_, ?_, ?_, ?_⟩ <;> decide +kernel
+
+/-- What a flattening that weights every member of a nested join by the *whole nested join's*
+emission reports (each of the `k` members contributes the group total `g` once): `k·g` instead of
+`g` — an over-count whenever the nested join has two or more members and emits anything. -/
+theorem nested_join_group_weight_overcounts (g c : K) (k : Nat) (hk : 2 ≤ k) (hg : 0 < g) :
+    (List.replicate k g).sum + c ≠ g + c := by
+  have h2 : (2 : K) ≤ (k : K) := by exact_mod_cast hk
+  rw [List.sum_replicate, nsmul_eq_mul]
+  nlinarith
+
+/-- **Exact proportionality on a midpoint grid, one level**: for integer weights `ms` with total
+`T > 0` and a grid of `N = q·T` cells, exactly `q·mᵢ = N·mᵢ/T` of the `N` midpoints `(2k+1)/(2N)`
+select part `i` — no midpoint lies on a boundary of the cumulative table, so the count does not
+depend on `<` vs `≤` at the boundaries. -/
+theorem nested_join_midpoint_grid_exact (ms : List Nat) (q : Nat) (hq : 0 < q) (hT : 0 < ms.sum)
+    (i : Nat) (hi : i < ms.length) :
+    ((Finset.range (q * ms.sum)).filter (fun k =>
+      selectIdx (ms.map (Nat.cast : Nat → K)) (((2 * k + 1 : Nat) : K) / ((2 * (q * ms.sum) : Nat) : K)) = i)).card
+      = q * ms[i] :=
+  selectIdx_midpoint_count ms q hq hT i hi
+
+/-- **Exact proportionality on the full midpoint grid, any nesting** (what the kind `jnestgrid`
+counts).  `t` a tree of joins over lights of integer weights (`t.castK` reads them in `K`) in which
+every join has a positive total dividing `N` (`gridOK`), `d ≥` its depth: of the `N^d` vectors of
+midpoints `((2k₁+1)/(2N), …, (2k_d+1)/(2N))` fed to `SampleLight` as draws, the number that reach
+the light `idx` of weight `m` satisfies `count · T = N^d · m`, `T = t.wt` the total weight — the
+light's share of the draws is exactly its share `m/T` of the emitted power.  (The same count holds
+for the flattened tree, which is again `gridOK`: the count does not depend on the grouping.) -/
+theorem nested_join_grid_exact (N : Nat) (t : LTree Nat) (d idx m : Nat) (hok : t.gridOK N)
+    (hd : t.depthN ≤ d) (hm : t.leavesN[idx]? = some m) :
+    gridCount N (t.castK (K := K)).select d idx * t.wt = N ^ d * m ∧ (gridVecs N d).length = N ^ d :=
+  ⟨LTree.gridCount_spec N t d idx m hok hd hm, gridVecs_length N d⟩
+
+/-- Non-vacuity: lights of weight 1 and 1 joined, then joined with a light of weight 2, grid `N = 4`,
+two draws: 4, 4 and 8 of the 16 midpoint vectors reach the three lights. -/
+example :
+    let t : LTree Nat := .join [.join [.leaf 1, .leaf 1], .leaf 2]
+    t.gridOK 4 ∧ t.depthN = 2 ∧ t.wt = 4 ∧ t.leavesN = [1, 1, 2] ∧
+    gridCount 4 (t.castK (K := ℚ)).select 2 0 = 4 ∧ gridCount 4 (t.castK (K := ℚ)).select 2 1 = 4 ∧
+    gridCount 4 (t.castK (K := ℚ)).select 2 2 = 8 := by
+  refine ⟨?_, ?_, ?_, ?_, ?_, ?_, ?_⟩
+  · simp [LTree.gridOK, LTree.gridOKL, LTree.wts, LTree.wt]
+  all_goals decide +kernel
 
 /-- Non-vacuity: the square-root hypothesis `SqrtOK` holds of `Real.sqrt`; the HG constants. -/
 example : SqrtOK ℝ := sqrtOK_real
